@@ -13,7 +13,7 @@ from concurrent.futures import ThreadPoolExecutor
 
 from .common import Oracle, Suite, errname, merge
 
-GEN_UNITS = ["Backend"]
+GEN_UNITS = ["Backend", "FormatDigests", "CryptoDigest"]
 LEAN_TARGETS = ["PasslibVerif.Props.C03"]
 ASSUMPTIONS = [
     "which loaders succeed on this machine (os_crypt support per format, the bcrypt package, hashlib.scrypt, $PASSLIB_BUILTIN_BCRYPT) is a parameter of the model, probed in fresh processes",
@@ -194,10 +194,48 @@ def correspond(ctx):
 
     # every ordered pair of loadable back ends gives the same string (in-process switching)
     pair_oracle(ctx, o_pair)
-    return merge(s_hist, o_pair)
+    o_order = Oracle(ctx, "backend-order-independence")
+    order_oracle(ctx, o_order)
+    return merge(s_hist, o_pair, o_order)
 
 
-PWS = [b"", b"a", b"pw", b"\xff\xfe\x80abc", "pässø".encode(), "pässwörd".encode(), "日本語 pass".encode(), "🔑key".encode(), b"x" * 8, b"x" * 9, b"y" * 55, b"y" * 56, b"z" * 72, b"z" * 73, b"q" * 200, bytes(range(1, 256))]
+def order_oracle(ctx, o, first_only=False):
+    """what a backend computes does not depend on which backends were loaded before it (fresh process per history): for every ordered
+    pair of bcrypt back ends and every ident, [load b1, hash, load b2, hash] gives the strings that [load b1, hash] and [load b2, hash] give"""
+    import itertools
+
+    idents = ["2", "2a", "2y", "2b"]
+    pw = "pässwörd".encode().hex()
+    singles, jobs = {}, []
+    cand = ["bcrypt", "os_crypt", "builtin"]
+    with ThreadPoolExecutor(12) as ex:
+        res = list(ex.map(lambda bi: worker([["set", "bcrypt", bi[0], 0], ["calci", "bcrypt", pw, bi[1]]], True), [(b, i) for b in cand for i in idents]))
+    for (b, i), r in zip([(b, i) for b in cand for i in idents], res):
+        if r[0].startswith("ok") and r[1].startswith("ok "):
+            singles[(b, i)] = r[1].split(" ", 2)[2]
+    loadable = sorted({b for (b, _i) in singles})
+    for b1, b2 in itertools.permutations(loadable, 2):
+        for i in idents:
+            if (b1, i) in singles and (b2, i) in singles:
+                jobs.append((b1, b2, i))
+    if not ctx.thorough and len(jobs) > 12:
+        jobs = [j for j in jobs if j[2] == "2"] + ctx.rng.sample([j for j in jobs if j[2] != "2"], 6)
+    with ThreadPoolExecutor(12) as ex:
+        res = list(ex.map(lambda j: worker([["set", "bcrypt", j[0], 0], ["calci", "bcrypt", pw, j[2]], ["set", "bcrypt", j[1], 0], ["calci", "bcrypt", pw, j[2]]], True), jobs))
+    fails = []
+    for (b1, b2, i), r in zip(jobs, res):
+        want = [f"ok {b1} {singles[(b1, i)]}", f"ok {b2} {singles[(b2, i)]}"]
+        got = [r[1], r[3]]
+        inp = {"op": "backend-order", "hasher": "bcrypt", "first": b1, "then": b2, "ident": i, "pwd": pw}
+        o.check("bcrypt:" + i, got == want, inp, got, want)
+        if got != want:
+            fails.append({"input": inp, "observed": got, "expected": want})
+            if first_only:
+                return fails
+    return fails
+
+
+PWS = [b"k" * 63, b"k" * 64, b"k" * 65, b"m" * 16, b"m" * 24, b"m" * 127, b"m" * 128, b"", b"a", b"pw", b"\xff\xfe\x80abc", "pässø".encode(), "pässwörd".encode(), "日本語 pass".encode(), "🔑key".encode(), b"x" * 8, b"x" * 9, b"y" * 55, b"y" * 56, b"z" * 72, b"z" * 73, b"q" * 200, bytes(range(1, 256))]
 
 
 def pair_oracle(ctx, o_pair, first_only=False):
@@ -296,6 +334,9 @@ def search(ctx, broken, seeds):
                     return {"input": {"op": "fresh-process-first-call", "hasher": cls, "builtin_bcrypt_env": bb, "call": i + 1}, "observed": res[i] + " => " + c,
                             "expected": f"the reference digest (class pre-hash applied {want} time(s))"}
     o = Oracle(ctx, "search")
+    fails = order_oracle(ctx, o, first_only=True)
+    if fails:
+        return fails[0]
     fails = pair_oracle(ctx, o, first_only=True)
     if fails:
         return fails[0]
